@@ -17,6 +17,9 @@ MUTANTS += [
     ('load count counts loads not pulses', [('mininec.Mininec.loads_as_mininec', "            n += len (l.pulses)", "            n += 1")], ['count']),
     ('source count off by one', [('mininec.Mininec.sources_as_mininec', "len (self.sources))", "len (self.sources) - 1)")], ['count']),
     ('media table skips the first medium', [('mininec.Mininec.environment_as_mininec', "for n, m in enumerate (self.media):", "for n, m in enumerate (self.media [1:]):")], ['for self']),
+    ('source block prints the total power', [('mininec.Excitation.as_mininec', "format_float ([self.power], 1) [0]", "format_float ([self.parent.power], 1) [0]")], ['labelled-value']),
+    ('source block: current line prints the voltage', [('mininec.Excitation.as_mininec', "format_float ([self.current.real], 1) [0]", "format_float ([self.voltage.real], 1) [0]")], ['labelled-value']),
+    ('source block: impedance parts swapped', [('mininec.Excitation.as_mininec', "              , format_float ([self.impedance.real], use_e = True) [0]\n              , format_float ([self.impedance.imag], use_e = True) [0]", "              , format_float ([self.impedance.imag], use_e = True) [0]\n              , format_float ([self.impedance.real], use_e = True) [0]")], ['labelled-value']),
     ('load writer called twice', [('mininec.Mininec.loads_as_mininec', "            r.append (l.as_mininec (self))", "            r.append (l.as_mininec (self))\n            r.append (l.as_mininec (self))")], ['for self']),
 ]
 REFACTORS = [
